@@ -19,6 +19,7 @@
 import Babylon.IdAlloc.LemmasUse
 import Babylon.IdAlloc.Sched
 import Babylon.IdAlloc.Pinned
+import Babylon.IdAlloc.View
 import Babylon.IdAlloc.BoxLemmas
 import Babylon.IdAlloc.BoxSched
 
@@ -310,5 +311,65 @@ example : ∃ b, BReach ⟨32⟩ b ∧ b.issued = [(0, 1, 8), (0, 0, 7)] ∧ b.w
       decide
     rw [hs] at hrest
     exact ⟨b, hreach, by simpa using hrest⟩
+
+/-! ## Weak memory: the item of a deposit-box slot under the release/acquire view model
+
+`Babylon/IdAlloc/View.lean` over `Babylon.Core.MemView` (every interleaving, every admissible stale
+read).  The orders are the ones extracted from the source (`View.ordEmplaceStore`, `View.ordTake`,
+`View.ordPush`, `View.ordPop` = first store / CAS of the generated skeletons). -/
+
+open Babylon.Core.MemView in
+/-- **Publication of the item.**  The slot's version word does not carry the item (stored before the
+construction, relaxed; taken with a relaxed CAS — `gen_view_orders`, `box_version_word_does_not_publish`);
+the item is published by the hand-off of the *id*: emplacer `a` stores the version, constructs the item,
+passes the id by a releasing store on a client location; taker `b` acquires that message, wins the take
+CAS (extracted orders) and reads the item: it gets the right id, can never read an item message older
+than the construction, and reads exactly the constructed item while the slot is not re-emplaced. -/
+theorem box_publication_view {L : Type} [DecidableEq L] (m0 : Mem L) (a b : Nat) (ver item ch : L)
+    (ov ov' oh oh' : Core.Ord) (r x idv d tsv : Nat) {m m1 m2 m3 m4 m5 m6 m7 : Mem L} {v obs ts' v' : Nat}
+    (hrel : oh.releases = true) (hacq : oh'.acquires = true)
+    (h0 : (m0.write a ver View.ordEmplaceStore r).Ext m) (h1 : (m.write a item ov x).Ext m1)
+    (h2 : (m1.write a ch oh idv).Ext m2) (h3 : m2.read b ch oh' (m1.len ch) = some (m3, v)) (h4 : m3.Ext m4)
+    (h5 : m4.cas b ver View.ordTake.1 View.ordTake.2 r d tsv = some (m5, true, obs)) (h6 : m5.Ext m6)
+    (h7 : m6.read b item ov' ts' = some (m7, v')) :
+    v = idv ∧ m.len item ≤ ts' ∧ (m6.len item = m.len item + 1 → v' = x) :=
+  View.box_publication_view_code m0 a b ver item ch ov ov' oh oh' r x idv d tsv hrel hacq h0 h1 h2 h3 h4 h5 h6 h7
+
+/-- the hand-off hypothesis of `box_publication_view` is necessary: with the extracted orders and a
+hand-off that does not synchronise, the winning taker reads the unconstructed slot (concrete view-model
+executions, kernel-evaluated) -/
+theorem box_version_word_does_not_publish :
+    View.pubRun View.ordEmplaceStore View.ordTake.1 .rlx .rlx 0 = some 0 ∧
+    View.pubRun View.ordEmplaceStore View.ordTake.1 .rel .rlx 0 = some 0 ∧
+    View.pubRun View.ordEmplaceStore View.ordTake.1 .rlx .acq 0 = some 0 :=
+  View.box_version_word_does_not_publish
+
+open Babylon.Core.MemView in
+/-- **Reuse of a slot.**  Taker `b` reads the item; `finish_released` pushes the slot (CAS with the
+extracted order, releasing); `free_head` is then modified by RMWs only; the next emplacer `c` pops
+(CAS with the extracted order, acquiring): everything `b` had seen when it read the item — the message it
+read included — is in `c`'s view before `c` constructs the next item: no overwrite race. -/
+theorem box_reuse_view {L : Type} [DecidableEq L] (m : Mem L) (b c : Nat) (item head : L) (ov : Core.Ord)
+    (e d tsp e' d' tsq : Nat) {m1 m2 m3 m4 m5 m6 : Mem L} {ts0 v obs obs' : Nat}
+    (h1 : m.read b item ov ts0 = some (m1, v)) (h2 : m1.Ext m2)
+    (h3 : m2.cas b head View.ordPush.1 View.ordPush.2 e d tsp = some (m3, true, obs))
+    (h4 : View.OnlyRmw head m3 m4)
+    (h5 : m4.cas c head View.ordPop.1 View.ordPop.2 e' d' tsq = some (m5, true, obs')) (h6 : m5.Ext m6) :
+    (m1.tv b).cur ≤ (m6.tv c).cur ∧ ts0 ≤ (m6.tv c).cur.get item ∧ ts0 < m6.len item :=
+  View.box_reuse_view_code m b c item head ov e d tsp e' d' tsq h1 h2 h3 h4 h5 h6
+
+/-- generated obligations of the two theorems above: push releases, pop acquires (needed by
+`box_reuse_view`; weakening either breaks this); version store and take CAS are relaxed (so the version
+word cannot publish; strengthening them changes nothing above but is reported here) -/
+theorem gen_view_orders :
+    View.ordPush.1.releases = true ∧ View.ordPop.1.acquires = true ∧
+    View.ordEmplaceStore = .rlx ∧ View.ordTake = (.rlx, .rlx) :=
+  ⟨View.gen_reuse_orders.1, View.gen_reuse_orders.2, View.gen_box_orders.1, View.gen_box_orders.2⟩
+
+/-- negative controls of `box_reuse_view`: with the push CAS or the pop CAS relaxed the next emplacer's
+view does not cover the taker's read; with the extracted orders it does, also through an intervening RMW -/
+theorem box_reuse_view_controls :
+    View.reuseRun View.ordPush.1 View.ordPop.1 false = some 1 ∧ View.reuseRun View.ordPush.1 View.ordPop.1 true = some 1 ∧
+    View.reuseRun .rlx View.ordPop.1 false = some 0 ∧ View.reuseRun View.ordPush.1 .rlx false = some 0 := by decide
 
 end Babylon.Properties.C14
